@@ -9,6 +9,7 @@ import Mathlib.Analysis.Calculus.Deriv.Mul
 import Mathlib.Analysis.Calculus.Deriv.Inv
 import Mathlib.Analysis.Calculus.Deriv.Pow
 import MxlVerif.Lemmas.C12JacRhs
+import MxlVerif.Lemmas.C12Total
 namespace Mxl.C12
 open Mxl
 
@@ -99,5 +100,23 @@ theorem jac_hasDerivAt (sc : SContent) (hwf : sc.wf = true) (t : Rat) (xs : List
     simp [List.getD, List.getElem?_map, hie]
   rw [hfun, ← hρx]
   exact hasDerivAt_evalS_self _ _ e hd
+
+/-- what `Model.__call__` returns with the `j`-th state value set to `v` (`[]` if it raised — it does not, see below) -/
+def rhsAlong (sc : SContent) (t : Rat) (xs : List Rat) (j : Nat) (v : Rat) : List Rat :=
+  match callRhs sc.toContent t (xs.set j v) with
+  | .ok ds => ds
+  | .error _ => []
+
+/-- the same without any assumption about other states: being defined at `xs` is enough (`callRhs_total`) -/
+theorem jac_hasDerivAt_total (sc : SContent) (hwf : sc.wf = true) (t : Rat) (xs ds : List Rat) (j : Nat)
+    (es : List SExpr) (hj : j < xs.length) (hs : toSymbolic sc = .ok es) (h0 : callRhs sc.toContent t xs = .ok ds) :
+    ∃ cache x, createCache sc.toContent = .ok cache ∧ cache.varNames[j]? = some x ∧
+      ∀ (i : Nat) (e : SExpr), es[i]? = some e → DenOK (symEnv sc cache xs) e →
+        HasDerivAt (fun v : ℚ => (rhsAlong sc t xs j v).getD i 0) (evalS (symEnv sc cache xs) (D x e)) xs[j] := by
+  apply jac_hasDerivAt sc hwf t xs j es hj hs (rhsAlong sc t xs j)
+  intro v
+  obtain ⟨ds', hds'⟩ := callRhs_total sc.toContent (allFn_of_wf sc hwf) t xs (xs.set j v) ds (by simp) h0
+  unfold rhsAlong
+  rw [hds']
 
 end Mxl.C12
